@@ -268,13 +268,37 @@ var subFilter = map[string]string{
 type rangeSpec struct{ A, E1, C, E2 int }
 
 // unsignedPDF emits the document with placeholders; tail is appended after %%EOF.
-func (p *pki) unsignedPDF(kind string, pages int, tail string) []byte {
+// docOpts varies the fixture: Variant is one letter drawn on every page (documents that differ only in Variant have the
+// same length), Pad the size of an extra stream placed in front of the signature dictionary, i.e. inside the first
+// signed range (0: none), so that the signed ranges can be made larger than any internal buffer threshold.
+type docOpts struct {
+	Variant string
+	Pad     int
+}
+
+func padData(n int) []byte {
+	line := []byte("verif padding of the signed range 0123456789 abcdefghijklmnopqrstuvwxyz\n")
+	b := make([]byte, 0, n+len(line))
+	for len(b) < n {
+		b = append(b, line...)
+	}
+	return b[:n]
+}
+
+func (p *pki) unsignedPDF(kind string, pages int, tail string, o docOpts) []byte {
+	v := o.Variant
+	if v == "" {
+		v = "S"
+	}
 	ps := make([]rawpdf.PageSpec, pages)
 	for i := range ps {
-		ps[i] = rawpdf.PageSpec{Marker: fmt.Sprintf("S-%s-%d", kind, i+1), Rotate: -1}
+		ps[i] = rawpdf.PageSpec{Marker: fmt.Sprintf("%s-%s-%d", v, kind, i+1), Rotate: -1}
 	}
 	d := rawpdf.MarkerDoc(ps, rawpdf.MarkerOpts{})
 	// MarkerDoc: 1 catalog, 2 font, 3 root pages, then per page: content, page
+	if o.Pad > 0 {
+		d.AddStream("/Type /VerifPad", padData(o.Pad))
+	}
 	field := d.Reserve()
 	sigd := d.Reserve()
 	firstPage := 5
@@ -304,7 +328,11 @@ type geom struct {
 
 // sign fills /ByteRange and /Contents so that the signature verifies over exactly the ranges given by rs.
 func (p *pki) sign(kind string, pages int, tail string, rs rangeSpec) ([]byte, geom, error) {
-	b := p.unsignedPDF(kind, pages, tail)
+	return p.signOpts(kind, pages, tail, rs, docOpts{})
+}
+
+func (p *pki) signOpts(kind string, pages int, tail string, rs rangeSpec, o docOpts) ([]byte, geom, error) {
+	b := p.unsignedPDF(kind, pages, tail, o)
 	var g geom
 	i := bytes.Index(b, []byte("/ByteRange ["))
 	j := bytes.Index(b, []byte("/Contents <"))
